@@ -157,29 +157,25 @@ def suffix_rule(ctx):
 def accessor_rule(ctx):
     fv = ctx.need("C06.A", c05.NEXT)
     if fv is not None:
-        lits = [n for n in fv.nodes if n.get("k") == "struct" and norm_path(n.get("adt", "")) == "ktio::seq::Sequence"]
-        for i, lit in enumerate(lits):
-            fs = {f["name"]: f["e"] for f in lit["fields"]}
-            fmtname = "?"
+        _m, groups = c05.next_deliveries(fv)
+        for variant, arm, delivered, _nothing in groups:
+            if len(delivered) != 1 or delivered[0][1][0] != "struct":
+                continue            # (reported by the ordinal rule)
+            fs = dict(delivered[0][1][2])
             for want, field, conv in (("id", "id", ("to_string",)), ("seq", "seq", ("to_vec", "to_owned"))):
-                e = fs.get(field)
+                t = fs.get(field)
                 ok = False
                 got = "<missing>"
-                if e is not None:
-                    t = fv.term(e)
+                if t is not None:
                     got = show(t)
-                    n_conv = 0
                     while t[0] == "call" and len(t) == 3 and t[1].split("::")[-1] in conv + ("into", "to_owned", "clone", "from"):
                         t = t[2]
-                        n_conv += 1
                     if t[0] == "call":     # (the field types String / Vec<u8> make the copy; to_owned/into are transparent in terms)
-                        ic = t[1]
-                        fmtname = ic.split("::")[2] if ic.startswith("bio::io::") else "?"
-                        ok = ic in ("bio::io::fasta::Record::%s" % want, "bio::io::fastq::Record::%s" % want)
-                ctx.check("C06.A", "next:%s:%s" % (fmtname if fmtname != "?" else i, field), ok,
+                        ok = t[1] == "bio::io::%s::Record::%s" % (variant.lower(), want)
+                ctx.check("C06.A", "next:%s:%s" % (variant.lower(), field), ok,
                           "%s copied from Record::%s()" % (field, want),
-                          "Sequence.%s is built from `%s`, expected a copy of bio's Record::%s()" % (field, got, want),
-                          line_of(lit))
+                          "Sequence.%s of a %s record is built from `%s`, expected a copy of bio's Record::%s()"
+                          % (field, variant, got, want), line_of(arm["body"]))
         ctx.floor("C06.A", 4)
     fs_ = ctx.need("C06.A", STATS)
     if fs_ is not None:
